@@ -71,6 +71,8 @@ func (c13) Classes() []sim.Class {
 		{Name: "read-faults", Engine: "compiler", Quick: 32, Thorough: 600, Instrumented: true, RunTimeoutSec: 300, Batch: 1},
 		{Name: "concurrent-writers", Engine: "compiler", Quick: 160, Thorough: 6000, Instrumented: true, RunTimeoutSec: 300},
 		{Name: "determinism-processes", Engine: "compiler", Quick: 24, Thorough: 800, Instrumented: true, RunTimeoutSec: 300},
+		// entries of more than a megabyte (over a hundred thousand functions): every internal buffer is crossed
+		{Name: "large-entry", Engine: "compiler", Quick: 3, Thorough: 24, Instrumented: true, RunTimeoutSec: 600, Batch: 1},
 	}
 }
 
@@ -254,8 +256,90 @@ func dwarfBinary(i int) []byte {
 	return b
 }
 
+// largeEntry: a module of n trivial functions (f_i returns i), compiled cold into the cache directory, then
+// compiled by a fresh runtime over the same directory (a hit that has to read the whole entry back), and
+// called at both ends and across the megabyte boundaries of the entry's tables.
+func largeEntry(t *tape.Tape, res *sim.Result) {
+	n := tape.Pick(t, []int{65536, 131071, 131072, 140000}) + t.Choose(64)
+	m := &wasmb.Module{}
+	i32 := []wasmb.ValType{wasmb.I32}
+	probes := map[int]bool{0: true, n - 1: true, 65535: true, 65536: true, 131069: true, 131070: true, 131071: true, n / 2: true}
+	for i := 0; i < n; i++ {
+		name := ""
+		if probes[i] {
+			name = fmt.Sprintf("f%d", i)
+		}
+		m.AddFunc(nil, i32, nil, (&wasmb.Code{}).I32Const(int32(i)).B, name)
+	}
+	bin := m.Encode()
+	d := simos.NewDisk()
+	simos.Current = d
+	w, err := newWorld()
+	if err != nil {
+		panic(err)
+	}
+	before := entryFiles(d)
+	if _, err := w.rt.CompileModule(w.ctx, bin); err != nil {
+		panic(fmt.Sprintf("harness: cold compile of %d functions failed: %v", n, err))
+	}
+	w.close()
+	simos.Current = nil
+	var path string
+	var entry []byte
+	for p, b := range entryFiles(d) {
+		if _, ok := before[p]; !ok {
+			path, entry = p, b
+		}
+	}
+	res.Logf("%d functions, module %d bytes, entry %d bytes", n, len(bin), len(entry))
+	res.Stat("probe.entry_bytes", int64(len(entry)))
+	res.Shape = sim.ShapeOf(fmt.Sprint(n))
+	res.Nontrivial = len(entry) > 1<<20
+	res.Sample = map[string]any{"functions": n, "entry_bytes": len(entry)}
+	if path == "" {
+		res.Fail("writer-error", "compiling %d functions wrote no cache entry", n)
+		return
+	}
+	simos.Current = d
+	defer func() { simos.Current = nil }()
+	w2, err := newWorld()
+	if err != nil {
+		res.Fail("restart-failed", "a new runtime over the cache directory holding a complete %d-byte entry cannot start: %v", len(entry), err)
+		return
+	}
+	defer w2.close()
+	cm, err, crashed, _, pan := compileGuarded(w2, bin)
+	if pan != nil || crashed || err != nil {
+		res.Fail("restart-failed", "CompileModule of %d functions by a new runtime over the cache directory holding the complete, untouched %d-byte entry failed: %v %v", n, len(entry), err, pan)
+		return
+	}
+	mod, err := w2.rt.InstantiateModule(w2.ctx, cm, wazero.NewModuleConfig().WithName(""))
+	if err != nil {
+		res.Fail("restart-wrong-code", "the %d-function module read back from its %d-byte entry does not instantiate: %v", n, len(entry), err)
+		return
+	}
+	for i := range probes {
+		if i >= n {
+			continue
+		}
+		got, err := mod.ExportedFunction(fmt.Sprintf("f%d", i)).Call(w2.ctx)
+		if err != nil || len(got) != 1 || uint32(got[0]) != uint32(i) {
+			res.Fail("restart-wrong-code", "f%d of the %d-function module read back from its %d-byte entry returned %v %v", i, n, len(entry), got, err)
+			return
+		}
+		res.Steps++
+	}
+	if b, ok := d.Content(path); !ok || !bytes.Equal(b, entry) {
+		res.Fail("incomplete-entry-visible", "the %d-byte entry changed while it was only read", len(entry))
+	}
+}
+
 func (c13) Run(t *tape.Tape, cfg sim.Config) (res sim.Result) {
 	defer func() { simos.Current = nil }()
+	if cfg.Class == "large-entry" {
+		largeEntry(t, &res)
+		return
+	}
 	p := genPlan(t)
 	bin := p.Encode()
 	if cfg.Class == "truncation" && cfg.Run%8 == 1 {
